@@ -898,6 +898,30 @@ def _degenerate(st, r):
             return EMPTY
         if op == "slice" and st.eq(as_poly(r[2]), 0) and st.eq(as_poly(r[3]), t_len(r[1])):
             return r[1]
+        if op == "slice" and r[1][0] == "gather":
+            # a window of a re-indexing = the re-indexing along the window of the indices
+            return mk_gather(st, r[1][1], _degenerate(st, ("slice", r[1][2], r[2], r[3])))
+        if op == "slice" and r[1][0] == "arange":
+            return ("arange", as_poly(r[1][1]) + as_poly(r[2]), as_poly(r[1][1]) + as_poly(r[3]))
+        if op == "slice" and r[1][0] == "shift":
+            return mk_shift(r[1][1], _degenerate(st, ("slice", r[1][2], r[2], r[3])))
+        if op == "slice" and r[1][0] == "concat":
+            # a window that is exactly a run of parts
+            lo, hi = as_poly(r[2]), as_poly(r[3])
+            off = Poly.const(0)
+            parts = list(r[1][1:])
+            i = 0
+            while i < len(parts) and not st.eq(off, lo):
+                off = off + t_len(parts[i])
+                i += 1
+            if st.eq(off, lo):
+                acc = []
+                while i < len(parts) and not st.eq(off, hi):
+                    off = off + t_len(parts[i])
+                    acc.append(parts[i])
+                    i += 1
+                if st.eq(off, hi):
+                    return mk_concat(acc)
         if op == "repeat" and r[1][0] == "fill" and st.eq(as_poly(r[1][1]), 1):
             return r[2]         # every element repeated once
         if op == "lmap" and isinstance(r[2], tuple) and len(r[2]) == 3 and r[2][0] == "rec":
